@@ -75,7 +75,7 @@ func zzH_C09_history() {
 
 // C09(b) — debug mode changes only the diagnostics attached to failing preflights.
 func zzH_C09_diag() {
-	s := zzDrawScenario([]int{zzFOrigin, zzFMethod, zzFHeaders, zzFPNA, zzFLists})
+	s := zzDrawScenario([]int{zzFOrigin, zzFMethod, zzFHeaders, zzFPNA, zzFLists, zzFSteps, zzFShortHdrs})
 	zzAssume(!s.debug)
 	_, off := zzServe(s.m, s.q, nil, &zzHandler{})
 	s.m.SetDebug(true)
